@@ -1,0 +1,78 @@
+//go:build verif
+
+package peer
+
+import (
+	"time"
+
+	"github.com/jech/storrent/bitmap"
+	"github.com/jech/storrent/pex"
+	"github.com/jech/storrent/protocol"
+)
+
+// This file only exists under the "verif" build tag.  It lets a
+// verification harness call the peer's message and event handlers from its
+// own goroutines (instead of from Run's loop) and look at the request
+// bookkeeping.  Forwarders contain no logic of their own.
+
+func VerifHandleMessage(p *Peer, m protocol.Message) error { return handleMessage(p, m) }
+func VerifHandleEvent(p *Peer, e PeerEvent) error         { return handleEvent(p, e) }
+func VerifExpireRequests(p *Peer) bool                    { return expireRequests(p) }
+func VerifMaybeRequest(p *Peer)                           { maybeRequest(p) }
+func VerifSendPex(p *Peer)                                { sendPex(p) }
+func VerifScheduleUpload(p *Peer, immediate bool) error   { return scheduleUpload(p, immediate) }
+
+// VerifSetup makes the field assignments that Run makes before entering
+// its loop (these lines are duplicated from Run), with a writer channel
+// owned by the harness.
+func VerifSetup(p *Peer, torEvent chan<- TorEvent, torDone <-chan struct{},
+	info []byte, bm bitmap.Bitmap,
+	writer chan protocol.Message, writerDone <-chan struct{}) {
+	p.torEvent = torEvent
+	p.torDone = torDone
+	p.Info = info
+	p.myBitmap = bm
+	p.writer = writer
+	p.writerDone = writerDone
+	p.reqQ = 128
+	p.time = time.Now()
+	p.writeTime = time.Now()
+}
+
+// VerifExit performs the bookkeeping of Run's exit path (duplicated from
+// Run's deferred function, without the forwarding loop).
+func VerifExit(p *Peer) {
+	close(p.Done)
+	p.requests.Clear(true, func(index uint32) {
+		drop(p, index)
+	})
+	writeEvent(p, TorPeerBitmap{p, p.bitmap.Copy(), false})
+	writeEvent(p, TorPeerGoaway{p})
+}
+
+// VerifTakeEvents removes and returns the events that Run's loop would
+// forward to the torrent.
+func VerifTakeEvents(p *Peer) []TorEvent {
+	e := p.events
+	p.events = nil
+	return e
+}
+
+func VerifRequests(p *Peer) (queue, requested []uint32) {
+	return p.requests.VerifLists()
+}
+
+func VerifUploadQueue(p *Peer) []Requested {
+	return append([]Requested(nil), p.requested...)
+}
+
+func VerifBitmap(p *Peer) bitmap.Bitmap { return p.bitmap.Copy() }
+
+func VerifPexState(p *Peer) (pending, pendingDel, sent []pex.Peer) {
+	s := &p.pexState
+	return append([]pex.Peer(nil), s.pending...),
+		append([]pex.Peer(nil), s.pendingDel...),
+		append([]pex.Peer(nil), s.sent...)
+}
+
+func VerifInfo(p *Peer) []byte { return p.Info }
